@@ -21,7 +21,7 @@ func init() {
 		Explanation: "One rule set applied uniformly to the six sibling helpers of package test (cross-check by uniform obligations over SSA, not by text equality): " +
 			"C20.iface: on the first case the value is tested against the interface whose method carries the helper's name; failure calls assert.FailNow(f) with the helper's t and returns. " +
 			"C20.dir: the helper filters with the direction predicate of its own direction, applied to the case's Constraint, the false edge skipping the case; isForMarshal/isForUnmarshal are c==0 ∨ c==Only<own> (table over the constraint values). " +
-			"C20.hooks: Before precedes and After follows the marshal call, both through callForCase, both results asserted with NoError, a failure skips the case; no path from the marshal call to the next case avoids the After hook; both hooks receive the address of the variable the case's Data/Value/Error are read from. C20.support: helperNew allocates a fresh target exactly when helper == nil and T is a pointer type (decision by the type only), otherwise helper.New(value); helperAssertEmpty/Equal assert on t with the values in order, or delegate to the TypeHelper; castToFunc makes both interface probes on its parameter (any(value), any(&value)), not on a zero T. " +
+			"C20.hooks: Before precedes and After follows the marshal call, both through callForCase, both results asserted with NoError, a failure skips the case; no path from the marshal call to the next case avoids the After hook; the Before hook sits behind the direction filter; both hooks receive the address of the variable the case's Data/Value/Error are read from. C20.support: helperNew allocates a fresh target exactly when helper == nil and T is a pointer type (decision by the type only), otherwise helper.New(value); helperAssertEmpty/Equal assert on t with the values in order, or delegate to the TypeHelper; castToFunc makes both interface probes on its parameter (any(value), any(&value)), not on a zero T. " +
 			"C20.safe: the user's Marshal*/Unmarshal* method is invoked only inside a function with a deferred recover whose result is turned into the returned error; callForCase protects the hooks the same way. " +
 			"C20.verdict: with an error predicate: the predicate is invoked with (t, the obtained error, info) and, on true, an emptiness assertion on the produced data/value follows; without: NoError on the obtained error and, on true, an equality assertion between the case's expectation and the produced data/value; every assertion receives the helper's t; the expectation reaches the assertion as loaded from the case, unconverted. " +
 			"C20.pred: each error predicate calls the assertion its name promises (assertion), and can answer false only where an assertion on t is known to have failed — the returned value is an assertion's own result, or the return lies behind the false edge of one, or behind assert.Fail (reports).",
@@ -354,9 +354,9 @@ func ruleC20Helper(e *Env, h helperSpec) {
 		}
 	}
 	// ---- C20.dir
+	var dirCall *ssa.Call
 	{
 		want := map[bool]string{true: "isForMarshal", false: "isForUnmarshal"}[h.marshal]
-		var dirCall *ssa.Call
 		for _, call := range e.C.Calls(fn, flow.InRepo) {
 			if n := e.C.StaticCallee(&call.Call).Name(); n == "isForMarshal" || n == "isForUnmarshal" {
 				dirCall = call
@@ -416,6 +416,8 @@ func ruleC20Helper(e *Env, h helperSpec) {
 			e.S.Bad("C20.hooks", site, "hooks", "the Before and After hooks are not both run through callForCase", pos, "")
 		case !precedes(before, safe) || !precedes(safe, after):
 			e.S.Bad("C20.hooks", site, "hooks", "Before must precede and After must follow the marshal call", pos, "")
+		case dirCall != nil && !(dirCall.Block() != before.Block() && dirCall.Block().Dominates(before.Block())):
+			e.S.Bad("C20.hooks", site, "hooks", "the Before hook runs in front of the direction filter: a case restricted to the other direction still has its hook run, and a failing hook there is reported although the case does not apply", e.posOf(before), "a case for the other direction whose Before hook fails")
 		case bypasses(safe.Block(), after.Block()):
 			e.S.Bad("C20.hooks", site, "hooks", "some path from the marshal call to the next case does not run the After hook: a failing After hook goes unreported on that path", e.posOf(after), "")
 		case !sameCase(before, before.Block()) || !sameCase(after, before.Block()):
